@@ -1,12 +1,121 @@
-// Package c02 checks property C02 (not built yet).
+// Package c02 checks property C02: printed output is a fixpoint of parse and print.
 package c02
 
 import (
+	"fmt"
+	"strings"
+
+	"verif/harness/llvmoracle"
 	"verif/harness/mbt"
+	"verif/harness/props/corpus"
 	"verif/harness/props/reg"
+	"verif/harness/props/rt"
+	"verif/harness/props/rtinputs"
 )
 
 func init() { reg.Register("C02", Run) }
 
+func firstDiff(a, b string) string {
+	la, lb := strings.Split(a, "\n"), strings.Split(b, "\n")
+	for i := 0; i < len(la) || i < len(lb); i++ {
+		var x, y string
+		if i < len(la) {
+			x = la[i]
+		}
+		if i < len(lb) {
+			y = lb[i]
+		}
+		if x != y {
+			return fmt.Sprintf("line %d:\n  first print : %s\n  second print: %s", i+1, mbt.Truncate(x, 300), mbt.Truncate(y, 300))
+		}
+	}
+	return ""
+}
+
+// Judge applies the C02 verdict rules.
+func Judge(rep *mbt.Report, in corpus.Input, r *rt.Result) {
+	cs := map[string]string{"src": in.Text, "name": in.Name}
+	if r.Mod == nil || r.PrintPanic != "" {
+		return // not accepted (or printing fails: C01/C08's finding): outside the quantifier
+	}
+	rep.Programs++
+	switch {
+	case r.ReparsePanic != "":
+		rep.Disagreements++
+		rep.Fail(mbt.Failure{Signature: "C02|reparse-panic|" + rt.NormalizeMessage(r.ReparsePanic), What: fmt.Sprintf("parser crashes on the printer's own output (%s): %s", in.Name, mbt.Truncate(r.ReparsePanic, 300)), Case: cs})
+	case r.ReparseErr != "":
+		rep.Disagreements++
+		rep.Fail(mbt.Failure{Signature: "C02|output-rejected|" + rt.NormalizeMessage(r.ReparseErr), What: fmt.Sprintf("the printed text is not accepted by the parser (%s): %s", in.Name, mbt.Truncate(r.ReparseErr, 300)), Case: cs})
+	case r.Reprint2Panic != "":
+		rep.Disagreements++
+		rep.Fail(mbt.Failure{Signature: "C02|second-print-panic|" + rt.NormalizeMessage(r.Reprint2Panic), What: fmt.Sprintf("printing the re-parsed module crashes (%s): %s", in.Name, mbt.Truncate(r.Reprint2Panic, 300)), Case: cs})
+	case !r.Fixpoint:
+		rep.Disagreements++
+		d := firstDiff(r.Printed, r.Printed2)
+		class := rt.ClassifyDiff([][2]string{{lineOf(d, "first print : "), lineOf(d, "second print: ")}})
+		rep.Fail(mbt.Failure{Signature: "C02|not-a-fixpoint|" + class, What: fmt.Sprintf("print(parse(y)) differs from y (%s), %s", in.Name, d), Case: cs})
+	case !r.DigestEqual:
+		rep.Disagreements++
+		rep.Fail(mbt.Failure{Signature: "C02|structure-differs|" + originClass(in.Origin), What: fmt.Sprintf("the module parsed from the input and the module parsed from its printed form print alike but differ structurally (%s)", in.Name), Case: cs})
+	}
+}
+
+func originClass(o string) string {
+	if strings.HasPrefix(o, "tlc:") {
+		return o
+	}
+	return "corpus"
+}
+
+func lineOf(d, prefix string) string {
+	for _, l := range strings.Split(d, "\n") {
+		if i := strings.Index(l, prefix); i >= 0 {
+			return l[i+len(prefix):]
+		}
+	}
+	return ""
+}
+
 // Run is the C02 check.
-func Run(tier, replay string) { mbt.Infra("check C02 is not built yet") }
+func Run(tier, replay string) {
+	rep := mbt.NewReport("C02", tier, "translation_validation")
+	rep.Rule = "a program is an input the parser accepts; y = print(parse(x)) must be accepted, print(parse(y)) = y byte for byte, and the structural digests (sharing and cycles included) of parse(x) and parse(y) must agree. Sources as in C01 plus inputs LLVM does not arbitrate (non-canonical spellings, s0x literals, repository tests that LLVM's verifier rejects)"
+	var ins []corpus.Input
+	if replay != "" {
+		var rf struct {
+			Failures []struct {
+				Case map[string]string `json:"case"`
+			} `json:"failures"`
+		}
+		if err := mbt.ReadJSON(replay, &rf); err != nil {
+			mbt.Infra("replay: %v", err)
+		}
+		for _, f := range rf.Failures {
+			ins = append(ins, corpus.Input{Name: f.Case["name"], Origin: "replay", Text: f.Case["src"]})
+		}
+	} else {
+		ins = append(rtinputs.Generated(rep, tier), rtinputs.Corpora(tier)...)
+		ins = append(ins, rtinputs.Spellings(rep, tier)...)
+	}
+	results := make([]*rt.Result, len(ins))
+	llvmoracle.Parallel(len(ins), func(i int) { results[i] = rt.Run(ins[i].Text, false) })
+	byOrigin := map[string]int{}
+	notAccepted := 0
+	for i, in := range ins {
+		r := results[i]
+		if r.Mod == nil || r.PrintPanic != "" {
+			notAccepted++
+			continue
+		}
+		byOrigin[in.Origin]++
+		rep.Count(in.Text, true)
+		if len(rep.Samples) < 3 {
+			rep.Sample(map[string]interface{}{"name": in.Name, "origin": in.Origin, "text": mbt.Truncate(in.Text, 500)})
+		}
+		Judge(rep, in, r)
+	}
+	rep.Extra["inputs_by_origin"] = byOrigin
+	rep.Extra["inputs_not_accepted_or_unprintable"] = notAccepted
+	rep.Assumptions = []string{"the code is compared with itself (idempotence); a loss that is already complete after the first print is C01's business"}
+	rep.Finish()
+}
